@@ -14,11 +14,12 @@
 //! Every call (with its result), every event of the transport's stream and the read-only
 //! projection of the bookkeeping maps are recorded as NDJSON for TLC (TransportIfaceTrace).
 mod env;
+mod probe;
 
 use env::Env;
 use litep2p::{
     crypto::ed25519::Keypair,
-    verif::tcp::{Bookkeeping, TcpEvent, TcpHarness, TcpSetup},
+    verif::{tcp::{Bookkeeping, TcpEvent, TcpSetup}, transports::TransportHarness},
     PeerId,
 };
 use multiaddr::{Multiaddr, Protocol};
@@ -78,7 +79,8 @@ impl Ledger {
 }
 
 struct Exec<'a> {
-    h: TcpHarness,
+    h: TransportHarness,
+    tr: String,
     env: &'a Env,
     rng: StdRng,
     lines: Vec<String>,
@@ -115,16 +117,26 @@ impl<'a> Exec<'a> {
         self.last_activity = Instant::now();
     }
 
+    /// `/ws` or `/quic-v1` tail of a TCP-shaped dead endpoint for the transport under test.
+    fn shaped(&self, tcp_base: &Multiaddr) -> Multiaddr {
+        match self.tr.as_str() {
+            "ws" => tcp_base.clone().with(Protocol::Ws("/".into())),
+            _ => tcp_base.clone(),
+        }
+    }
+
     fn concretise(&mut self, spec: &Value) -> Multiaddr {
         let n = spec["n"].as_u64().unwrap_or(0) as usize;
         let ghost = || Protocol::P2p(PeerId::random().into());
+        let tr = self.tr.clone();
+        let quic = tr == "quic";
         match spec["kind"].as_str().unwrap_or("healthy") {
-            "healthy" => self.env.healthy_addr(n),
-            "nop2p" => strip_p2p(&self.env.healthy_addr(n)).0,
-            "wrongid" => strip_p2p(&self.env.healthy_addr(n)).0.with(ghost()),
+            "healthy" => self.env.healthy_addr(&tr, n),
+            "nop2p" => strip_p2p(&self.env.healthy_addr(&tr, n)).0,
+            "wrongid" => strip_p2p(&self.env.healthy_addr(&tr, n)).0.with(ghost()),
             "dns" => {
                 // a healthy node behind a name (resolved through the hosts file or not at all: the lookup is bounded by T)
-                let full = self.env.healthy_addr(n);
+                let full = self.env.healthy_addr(&tr, n);
                 let mut out = Multiaddr::empty();
                 for p in full.iter() {
                     out.push(match p {
@@ -134,13 +146,23 @@ impl<'a> Exec<'a> {
                 }
                 out
             }
-            "dns_bad" => format!("/dns4/no-such-host-{n}.invalid/tcp/4001").parse::<Multiaddr>().unwrap().with(ghost()),
-            "refused" => self.env.refused.clone().with(ghost()),
-            "blackhole" => self.env.blackhole.clone().with(ghost()),
-            "garbage" => self.env.garbage[n % self.env.garbage.len()].clone().with(ghost()),
-            "bad" => ["/ip4/127.0.0.1/udp/4001", "/ip4/127.0.0.1/tcp/4001/ws", "/ip4/127.0.0.1", "/p2p/12D3KooWT2ouvz5uMmCvHJGzAGRHiqDts5hzXR7NdoQ27pGdzp9Q"][n % 4]
-                .parse()
-                .unwrap(),
+            "dns_bad" => format!("/dns4/no-such-host-{n}.invalid{}", match tr.as_str() { "ws" => "/tcp/4001/ws", "quic" => "/udp/4001/quic-v1", _ => "/tcp/4001" })
+                .parse::<Multiaddr>()
+                .unwrap()
+                .with(ghost()),
+            // QUIC has no refusal: a closed or unread UDP port is only ever a timeout
+            "refused" | "blackhole" if quic => self.env.udp_dead.clone().with(ghost()),
+            "garbage" if quic => self.env.udp_garbage.clone().with(ghost()),
+            "refused" => self.shaped(&self.env.refused).with(ghost()),
+            "blackhole" => self.shaped(&self.env.blackhole).with(ghost()),
+            "garbage" => self.shaped(&self.env.garbage[n % self.env.garbage.len()]).with(ghost()),
+            "bad" => match tr.as_str() {
+                "ws" => ["/ip4/127.0.0.1/udp/4001", "/ip4/127.0.0.1/tcp/4001", "/ip4/127.0.0.1", "/p2p/12D3KooWT2ouvz5uMmCvHJGzAGRHiqDts5hzXR7NdoQ27pGdzp9Q"][n % 4],
+                "quic" => ["/ip4/127.0.0.1/tcp/4001", "/ip4/127.0.0.1/tcp/4001/ws", "/ip4/127.0.0.1", "/p2p/12D3KooWT2ouvz5uMmCvHJGzAGRHiqDts5hzXR7NdoQ27pGdzp9Q"][n % 4],
+                _ => ["/ip4/127.0.0.1/udp/4001", "/ip4/127.0.0.1/tcp/4001/ws", "/ip4/127.0.0.1", "/p2p/12D3KooWT2ouvz5uMmCvHJGzAGRHiqDts5hzXR7NdoQ27pGdzp9Q"][n % 4],
+            }
+            .parse()
+            .unwrap(),
             other => panic!("address kind {other}"),
         }
     }
@@ -244,7 +266,12 @@ impl<'a> Exec<'a> {
     }
 
     fn connect(&mut self, kind: &str, n: usize) {
-        self.ledger.connects += 1;
+        let quic = self.tr == "quic";
+        // QUIC: only a real node ever gets as far as the listener; junk datagrams are dropped by quinn
+        let kind = if quic && !kind.starts_with("node") { "garbage" } else { kind };
+        if !(quic && kind == "garbage") {
+            self.ledger.connects += 1;
+        }
         self.bump("connects");
         self.log(json!({"e": "connect", "kind": kind}));
         let (sock, _) = strip_p2p(&self.listen);
@@ -252,6 +279,14 @@ impl<'a> Exec<'a> {
         match kind {
             "node" => self.env.dialer_dial(n, self.listen.clone().with(Protocol::P2p(self.local.into()))),
             "node_wrongid" => self.env.dialer_dial(n, self.listen.clone().with(Protocol::P2p(PeerId::random().into()))),
+            _ if quic => {
+                self.held.push(tokio::spawn(async move {
+                    if let Ok(s) = tokio::net::UdpSocket::bind("127.0.0.1:0").await {
+                        let _ = s.send_to(b"\xc3\x00\x00\x00\x01\x08junkjunk\x00 no quic initial", target).await;
+                        let _ = s.send_to(&[0u8; 1200], target).await;
+                    }
+                }));
+            }
             _ => {
                 let kind = kind.to_string();
                 self.held.push(tokio::spawn(async move {
@@ -438,15 +473,16 @@ struct Outcome {
 async fn run_exec(env: &Env, sched: &Value, seed: u64, fault: &str) -> Outcome {
     let cfg = &sched["cfg"];
     let t_ms = cfg["timeout_ms"].as_u64().unwrap_or(250);
+    let tr = cfg["transport"].as_str().unwrap_or("tcp").to_string();
     let setup = TcpSetup {
-        listen_addresses: vec!["/ip4/127.0.0.1/tcp/0".parse().unwrap()],
+        listen_addresses: vec![match tr.as_str() { "ws" => "/ip4/127.0.0.1/tcp/0/ws", "quic" => "/ip4/127.0.0.1/udp/0/quic-v1", _ => "/ip4/127.0.0.1/tcp/0" }.parse().unwrap()],
         reuse_port: cfg["reuse_port"].as_bool().unwrap_or(false),
         connection_open_timeout: Duration::from_millis(t_ms),
         substream_open_timeout: Duration::from_millis(t_ms),
         max_parallel_dials: cfg["parallel"].as_u64().unwrap_or(8) as usize,
         protocols: 1,
     };
-    let h = TcpHarness::new(Keypair::generate(), setup).expect("tcp transport");
+    let h = TransportHarness::new(&tr, Keypair::generate(), setup).expect("transport under test");
     let listen = h.listen_addresses().into_iter().next().expect("listen address");
     let local = h.local_peer_id();
     // timer-lag probe: the judgement of deadlines is only valid while timers fire on time
@@ -462,7 +498,7 @@ async fn run_exec(env: &Env, sched: &Value, seed: u64, fault: &str) -> Outcome {
     });
     let id = sched["id"].as_u64().unwrap_or(0);
     let mut x = Exec {
-        h, env, rng: StdRng::seed_from_u64(seed ^ id.wrapping_mul(0x9e3779b97f4a7c15)), lines: vec![], refs: HashMap::new(), inbound: vec![],
+        h, tr, env, rng: StdRng::seed_from_u64(seed ^ id.wrapping_mul(0x9e3779b97f4a7c15)), lines: vec![], refs: HashMap::new(), inbound: vec![],
         ledger: Ledger::default(), policy: cfg["policy"].clone(), last_activity: Instant::now(), accepts: vec![], fault: fault.to_string(),
         cancelled_opening: vec![], listen, local, held: vec![], stats: HashMap::new(), seen: HashMap::new(), matched: HashMap::new(), inbound_matched: 0,
     };
@@ -473,7 +509,10 @@ async fn run_exec(env: &Env, sched: &Value, seed: u64, fault: &str) -> Outcome {
     // quiescence: nothing outstanding in the driver's ledger and the transport idle, or -- when something that must
     // conclude has not -- three times the longest bound on any operation (dial: connect T + negotiation T; open:
     // deadline 2 T; inbound negotiation T) plus half a second without any call or event
-    let deadline = Duration::from_millis(6 * t_ms + 500);
+    // bound_ms = the longest time any single operation may take on this transport (TCP/WS: connect T + negotiation T,
+    // open deadline 2 T; QUIC: lookup T + quinn's handshake timeout max(T, 3 x initial PTO = 3 s))
+    let bound_ms = cfg["bound_ms"].as_u64().unwrap_or(2 * t_ms);
+    let deadline = Duration::from_millis(3 * bound_ms + 500);
     let idle_min = Duration::from_millis(120);
     let settled;
     let started = Instant::now();
@@ -507,7 +546,7 @@ async fn run_exec(env: &Env, sched: &Value, seed: u64, fault: &str) -> Outcome {
         }
     }
     x.stats.insert("accept_futures_ok", acc_ok);
-    let lagged = lag.load(Ordering::Relaxed) > 2 * t_ms;
+    let lagged = lag.load(Ordering::Relaxed) > bound_ms;
     Outcome { lines: std::mem::take(&mut x.lines), stats: std::mem::take(&mut x.stats), lagged, settled }
 }
 
@@ -516,9 +555,14 @@ fn main() {
     let seed = args.u64("seed", 1);
     let conc = args.u64("conc", 24) as usize;
     let fault = std::env::var("VERIF_FAULT").unwrap_or_default();
-    let scheds = read_jsonl(&args.str("schedules", "schedules.jsonl"));
     let out = args.str("out", "trace.ndjson");
     let rt = tokio::runtime::Builder::new_multi_thread().worker_threads(args.u64("threads", 6) as usize).enable_all().build().unwrap();
+    if args.get("probe-quic-direction").is_some() {
+        rt.block_on(probe::run());
+        println!("SUMMARY {{}}");
+        std::process::exit(0);
+    }
+    let scheds = read_jsonl(&args.str("schedules", "schedules.jsonl"));
     let (lines, summary) = rt.block_on(async move {
         use futures::StreamExt;
         let env = Arc::new(Env::new(args.u64("healthy", 4) as usize, args.u64("dialers", 4) as usize).await);
